@@ -1,5 +1,6 @@
 // utapsim: deterministic simulator for libutap. See DESIGN.md section 3.
 #include "runner.h"
+#include "seams.h"
 
 #include <cstdio>
 #include <cstdlib>
@@ -26,5 +27,15 @@ int main(int argc, char** argv)
             }
         }
     }
-    return sim::runner_main(argc, argv);
+    // simulated files have real paths under a private directory (see seams.h); the orchestrator owns it
+    sim::sim_dir_create();
+    const pid_t owner = getpid();
+    static pid_t s_owner;
+    s_owner = owner;
+    atexit([] {
+        if (getpid() == s_owner)
+            sim::sim_dir_remove();
+    });
+    int rc = sim::runner_main(argc, argv);
+    return rc;
 }
